@@ -56,9 +56,9 @@ theorem compare_pos_iff (a : Key) (k : Nat) : 0 < compare a (.fin k) ↔ Key.lt 
 theorem skeleton_findPath_ok : Gen.skeleton_findPath =
     ["atomic.LoadInt32(s.level)", "prev.getNext", "curr.getNext", "s.helpDelete", "prev.getNext", "curr.getNext"] := rfl
 
-theorem skeleton_Insert4_ok :
-    Gen.skeleton_Insert4 = ["s.findPath", "s.freeNode", "buf.preds[0].dcasNext", "x.getNext", "x.dcasNext",
-      "next.getNext", "s.findPath", "buf.preds[i].dcasNext", "x.getNext", "s.findPath", "s.findPath"] := rfl
+theorem skeleton_Insert4_ok : Gen.skeleton_Insert4 =
+    ["s.findPath", "s.freeNode", "buf.preds[0].dcasNext", "x.getNext", "x.dcasNext", "next.getNext", "s.findPath",
+     "buf.preds[i].dcasNext", "x.getNext", "s.findPath", "s.findPath"] := rfl
 
 theorem skeleton_softDelete_ok : Gen.skeleton_softDelete =
     ["delNode.getNext", "delNode.dcasNext", "delNode.getNext"] := rfl
@@ -67,6 +67,8 @@ theorem skeleton_deleteNode_ok : Gen.skeleton_deleteNode = ["s.softDelete", "s.f
 
 theorem skeleton_helpDelete_ok : Gen.skeleton_helpDelete = ["prev.dcasNext"] := rfl
 
+/-- `it.Refresh` is the LAST call of Iterator.Next: the automatic refresh happens after the step (the model's
+    `afterNext`); moving it to the top of Next changes this list -/
 theorem skeleton_SkiplistIteratorNext_ok : Gen.skeleton_SkiplistIteratorNext =
     ["it.curr.getNext", "atomic.AddUint64(it.s.Stats.readConflicts)", "it.Refresh"] := rfl
 
